@@ -1461,6 +1461,78 @@ static int sch_mpss(sess_t *s) {
 	return 0;
 }
 
+/* ---- two-party Pointcheval-Sanders block signature: opt k = number of blocks 1..3 ---- */
+static int sch_mpsb(sess_t *s) {
+	b3_init();
+	static bn_t bm[NSESS][3][2], bv[NSESS][3][2], rm[NSESS][3][2], cm[NSESS][3];
+	static g2_t by_[NSESS][3][2], ys[NSESS][3];
+	static int ready = 0;
+	if (!ready) {
+		for (int a = 0; a < NSESS; a++) {
+			for (int j = 0; j < 3; j++) {
+				bn_null(cm[a][j]); bn_new(cm[a][j]); g2_null(ys[a][j]); g2_new(ys[a][j]);
+				for (int i = 0; i < 2; i++) {
+					bn_null(bm[a][j][i]); bn_new(bm[a][j][i]); bn_null(bv[a][j][i]); bn_new(bv[a][j][i]);
+					bn_null(rm[a][j][i]); bn_new(rm[a][j][i]); g2_null(by_[a][j][i]); g2_new(by_[a][j][i]);
+				}
+			}
+		}
+		ready = 1;
+	}
+	size_t l = 1 + (size_t)(s->opt[4] % 3);
+	mt_t (*tri)[2] = mt3[s->sid];
+	pt_t *pt = pc_tri[s->sid];
+	g1_t *A = mg1[s->sid];
+	g2_t *X = mg2[s->sid];
+	gt_t *E = mgt[s->sid];
+	char name[8];
+	/* r[2] b[0..1]; h X[0], x[2] X[1..2]; a A[0], b[2] A[1..2] */
+	switch (s->phase) {
+		case 0:
+			for (int j = 0; j < 3; j++) { for (int i = 0; i < 2; i++) { bn_zero(bm[s->sid][j][i]); bn_zero(bv[s->sid][j][i]); bn_zero(rm[s->sid][j][i]); g2_set_infty(by_[s->sid][j][i]); } }
+			pc_map_tri(pt);
+			for (int i = 0; i < 3; i++) { mpc_mt_gen(tri[i], ord); }
+			gt_exp_gen(E[0], tri[2][0]->b); gt_exp_gen(E[1], tri[2][1]->b);
+			gt_exp_gen(E[2], tri[2][0]->c); gt_exp_gen(E[3], tri[2][1]->c);
+			tri[2][0]->bt = &E[0]; tri[2][1]->bt = &E[1];
+			tri[2][0]->ct = &E[2]; tri[2][1]->ct = &E[3];
+			log_rc(s, "gen", cp_mpsb_gen(s->b, bv[s->sid], X[0], X + 1, by_[s->sid], l));
+			log_rc(s, "bct", cp_mpsb_bct(X + 1, by_[s->sid], l));
+			return 1;
+		case 1:
+			for (size_t j = 0; j < l; j++) { bn_rand_mod(bm[s->sid][j][0], ord); bn_rand_mod(bm[s->sid][j][1], ord); }
+			log_rc(s, "sig", cp_mpsb_sig(A[0], A + 1, (const bn_t (*)[2])bm[s->sid], (const bn_t *)s->b, (const bn_t (*)[2])bv[s->sid], tri[0], tri[1], l));
+			return 1;
+		case 2: {
+			int ok = 1;
+			ok &= xmit_g1(s, "a", A[4], A[0], (int)s->opt[1]);
+			ok &= xmit_g1(s, "b0", A[5], A[1], (int)s->opt[1]);
+			ok &= xmit_g1(s, "b1", A[6], A[2], (int)s->opt[1]);
+			for (size_t j = 0; j < l; j++) {
+				snprintf(name, sizeof(name), "m%zu0", j); ok &= xmit_bn(s, name, rm[s->sid][j][0], bm[s->sid][j][0], 0);
+				snprintf(name, sizeof(name), "m%zu1", j); ok &= xmit_bn(s, name, rm[s->sid][j][1], bm[s->sid][j][1], 0);
+			}
+			s->flag[0] = ok;
+			return 1;
+		}
+		case 3:
+			if (s->flag[0]) {
+				cp_mpsb_ver(E[4], A[4], (const g1_t *)(A + 5), (const bn_t (*)[2])rm[s->sid], X[0], X[1], (const g2_t (*)[2])by_[s->sid],
+						(s->opt[6] & 1) ? (const bn_t (*)[2])bv[s->sid] : NULL, tri[2], pt, l);
+				log_ver(s, "ver", gt_is_unity(E[4]) == 1);
+				/* the plain block verifier on the recombined values must agree */
+				for (size_t j = 0; j < l; j++) {
+					bn_add(cm[s->sid][j], rm[s->sid][j][0], rm[s->sid][j][1]); bn_mod(cm[s->sid][j], cm[s->sid][j], ord);
+					g2_copy(ys[s->sid][j], by_[s->sid][j][0]);
+				}
+				g1_add(A[7], A[5], A[6]); g1_norm(A[7], A[7]);
+				log_ver(s, "plain", cp_psb_ver(A[4], A[7], (const bn_t *)cm[s->sid], X[0], X[1], (const g2_t *)ys[s->sid], l) == 1);
+			} else tr_printf("VER %d ver decode-failed\n", s->sid);
+			return 0;
+	}
+	return 0;
+}
+
 /* ---- subgroup Paillier: both encryptors ---- */
 static int sch_shpe(sess_t *s) {
 	b3_init();
@@ -1605,5 +1677,5 @@ static int sch_mpcpc(sess_t *s) {
 	{ "bgn", sch_bgn, 1, 0, 0 }, { "sokaka", sch_sokaka, 1, 0, 0 }, { "mt", sch_mt, 0, 0, 0 }, { "pdpub", sch_pdpub, 1, 0, 0 }, \
 	{ "lvpub", sch_pdpub, 1, 0, 0 }, { "pdprv", sch_pdprv, 1, 0, 0 }, { "lvprv", sch_pdprv, 1, 0, 0 }, { "pbpsi", sch_pbpsi, 1, 0, 0 }, \
 	{ "ped", sch_ped, 0, 0, 0 }, { "rsapsi", sch_rsapsi, 0, 0, 0 }, { "shipsi", sch_rsapsi, 0, 0, 0 }, \
-	{ "etrs", sch_etrs, 0, 0, 0 }, { "smlers", sch_smlers, 0, 0, 0 }, { "cmlhs", sch_cmlhs, 1, 0, 0 }, { "mpss", sch_mpss, 1, 0, 0 }, \
+	{ "etrs", sch_etrs, 0, 0, 0 }, { "smlers", sch_smlers, 0, 0, 0 }, { "cmlhs", sch_cmlhs, 1, 0, 0 }, { "mpss", sch_mpss, 1, 0, 0 }, { "mpsb", sch_mpsb, 1, 0, 0 }, \
 	{ "shpe", sch_shpe, 0, 0, 0 }, { "mpcg1", sch_mpcg1, 1, 0, 0 }, { "mpcpc", sch_mpcpc, 1, 0, 0 },
